@@ -5,6 +5,12 @@ ALL = ["C%02d" % i for i in range(1, 21)]
 
 CHECKS = [
     {
+        "property_id": "C11",
+        "text": "Coq: lifecycle specification with theorems over all states and calls. Tie: the real RPC server must agree with the specification call by call (verdict, stored statuses, stored change count) on exhaustive short and seeded longer call sequences incl. invalid calls; protocol-model replay of histories with detach/deactivate; exact-minimum oracle for the coupling with the version-vector table.",
+        "note": "Trusted: Coq kernel, harness; memory DB only.",
+        "technique": "Coq proof (state-machine spec theorems) + call-by-call correspondence with the real RPC server",
+    },
+    {
         "property_id": "C02",
         "text": "Differential decision on the real system: snapshot-fed clients, the server's rebuilt document (all cache states, cold rebuild of every serverSeq) and a replica that applied every change one by one must agree, for random histories over small snapshot intervals/thresholds with late attachers and further edits; plus the ElementRHT structure correspondence (model = code) and its structural oracle. Theorems used: ElementRHT/RGAList models (tied), C20 cache lemmas.",
         "note": "PARTIAL: the snapshot codec itself has no Coq model yet; this check is differential (translation-validation style) with the structure models as support.",
